@@ -414,9 +414,7 @@ func (fsm *FSM) Restore(snap io.ReadCloser) error {
 		log.Fatal(err)
 	}
 	fsm.ircstore = newStore
-	if err := outputStream.Close(); err != nil {
-		glog.Error(err)
-	}
+	oldOutput := outputStream
 
 	newServer := ircserver.NewIRCServer(*network, time.Now())
 	newOutput, err := outputstream.NewOutputStream(*raftDir)
@@ -427,6 +425,14 @@ func (fsm *FSM) Restore(snap io.ReadCloser) error {
 	// (metrics, session expiration), so swap them under stateMu.
 	replaceState(newServer, newStore, newOutput)
 	fsm.ReplaceState(newServer, newStore, newOutput)
+	// Close the old output stream only now: GetMessages requests which are
+	// blocked in its GetNext are woken up by Close and continue with the new
+	// output stream. Otherwise they would stay blocked forever (nothing is
+	// ever added to the old stream), while the pings keep their connection
+	// alive: the client would silently stop receiving messages.
+	if err := oldOutput.Close(); err != nil {
+		glog.Error(err)
+	}
 	// XXX(1.0): remove this conditional, all snapshots are protobuf-encoded now
 	b := bufio.NewReader(snap)
 	first, err := b.Peek(1)
